@@ -129,8 +129,7 @@ func runC10(c *eng.Ctx) {
 		for s := range sent {
 			name := s[strings.LastIndex(s, ".")+1:]
 			if name == "EOF" {
-				// io.EOF (cancel / end of reverse scan) goes through status.Convert
-				c.Check(hasDefault, "error "+name+" has a status", p.Pos(fn.Pos()), "falls to status.Convert", "io.EOF from the readers is not converted to a status")
+				ruleReverseEndStatus(c, fn)
 				continue
 			}
 			c.Check(mapped[s] || hasDefault, "error "+name+" has a status", p.Pos(fn.Pos()), map[bool]string{true: "explicit mapping branch", false: "falls to status.Convert"}[mapped[s]], "sentinel error "+name+" returned by a reader has no mapping in the subscribe loop")
@@ -146,11 +145,25 @@ func runC10(c *eng.Ctx) {
 	if fn := c.Fn("server.(*partition).Subscribe"); fn != nil {
 		stop := eng.Call(0, "server.partition.getStopOffset")
 		start := eng.Call(0, "server.partition.getStartOffset")
-		okRange := eng.CmpEdges(fn, stop, start, eng.GE)
 		waits := eng.CmpEdges(fn, stop, eng.IntConst(-1), eng.EQ)
+		// case analysis on the (immutable) direction flag: in the forward world every edge on which Reverse is true is
+		// infeasible, and vice versa; the range test demanded is the one of that direction
+		revT := eng.BoolEdges(fn, eng.LoadNamed("Reverse", nil), true)
+		revF := eng.BoolEdges(fn, eng.LoadNamed("Reverse", nil), false)
 		for _, nr := range eng.CallsIn(fn, cl+"CommitLog.NewReader", cl+"CommitLog.NewReverseReader") {
-			g, w := eng.GuardedBy(fn, nr.(ssa.Instruction), append(append([]eng.Edge{}, okRange...), waits...))
-			c.Check(g && len(okRange) > 0, "reader created only for a non-inverted range", c.Pos(nr.(ssa.Instruction)), "stopOffset == waitForNewMessages ∨ stopOffset >= startOffset", "a reader is created although stopOffset < startOffset (path "+w.String()+")")
+			isRev := strings.HasSuffix(eng.CalleeRef(nr.Common()), "NewReverseReader")
+			okRange := eng.CmpEdges(fn, stop, start, eng.GE)
+			other := revT
+			want := "stopOffset == waitForNewMessages ∨ stopOffset >= startOffset"
+			bad := "a forward reader is created although stopOffset < startOffset"
+			if isRev {
+				okRange = eng.CmpEdges(fn, stop, start, eng.LE)
+				other = revF
+				want = "stopOffset == waitForNewMessages ∨ stopOffset <= startOffset"
+				bad = "a reverse reader is created without the stop offset having been compared with the start offset in the reverse direction: a reverse range [start … stop] with stop < start is refused as inverted, and one with stop > start, which can never be reached, is accepted and read to the oldest message"
+			}
+			g, w := eng.GuardedBy(fn, nr.(ssa.Instruction), append(append(append([]eng.Edge{}, okRange...), waits...), other...))
+			c.Check(g && len(okRange) > 0, "reader created only for a non-inverted range", c.Pos(nr.(ssa.Instruction)), want, bad+" (path "+w.String()+")")
 			c.Check(start(eng.AllArgs(nr.Common())[1]), "reader starts at the resolved start offset", c.Pos(nr.(ssa.Instruction)), "NewReader(startOffset, …)", "the reader is not created at the resolved start offset")
 		}
 	}
@@ -175,13 +188,19 @@ func runC10(c *eng.Ctx) {
 			off := eng.Call(1, cl+"MessageReader.ReadMessage", cl+"Reader.ReadMessage")
 			stopV := freeVarNamed("stopOffset")
 			within := eng.CmpEdges(fn, off, stopV, eng.LE)
+			withinRev := eng.CmpEdges(fn, off, stopV, eng.GE)
 			waived := eng.CmpEdges(fn, stopV, eng.IntConst(-1), eng.EQ)
-			rev := eng.BoolEdges(fn, freeVarNamed("reverse"), true)
-			g, w := eng.GuardedBy(fn, sends[0], append(append(append([]eng.Edge{}, within...), waived...), rev...))
-			c.Check(g && len(within) > 0, "no message past the stop offset is sent", c.Pos(sends[0]), "the send is reached only over offset <= stopOffset, stop waived, or reverse", "a message is handed to the subscriber before its offset has been compared with the stop offset (path "+w.String()+"): when the stop offset itself is no longer in the log (compaction, retention) the first retained message past it is delivered")
+			revT := eng.BoolEdges(fn, freeVarNamed("reverse"), true)
+			revF := eng.BoolEdges(fn, freeVarNamed("reverse"), false)
+			// forward world (edges with reverse == true are infeasible), then reverse world
+			g, w := eng.GuardedBy(fn, sends[0], append(append(append([]eng.Edge{}, within...), waived...), revT...))
+			c.Check(g && len(within) > 0, "no message past the stop offset is sent", c.Pos(sends[0]), "forward: the send is reached only over offset <= stopOffset or stop waived", "a message is handed to the subscriber before its offset has been compared with the stop offset (path "+w.String()+"): when the stop offset itself is no longer in the log (compaction, retention) the first retained message past it is delivered")
+			g2, w2 := eng.GuardedBy(fn, sends[0], append(append(append([]eng.Edge{}, withinRev...), waived...), revF...))
+			c.Check(g2 && len(withinRev) > 0, "no message below the stop offset is sent in reverse", c.Pos(sends[0]), "reverse: the send is reached only over offset >= stopOffset or stop waived", "in a reverse subscription a message is handed to the subscriber without its offset having been compared with the stop offset (path "+w2.String()+"): when the stop offset itself is no longer in the log the subscription runs on to the oldest message")
 		}
 	}
-	c.Floor(5)
+	ruleReadonlyStopForwardOnly(c)
+	c.Floor(8)
 
 	// ---- shared
 	c.Rule("R01.5", "K5")
@@ -506,4 +525,44 @@ func describeOther(bo *ssa.BinOp, isOff func(ssa.Value) bool) string {
 func isInt64(t types.Type) bool {
 	b, ok := t.Underlying().(*types.Basic)
 	return ok && b.Kind() == types.Int64
+}
+
+// ruleReadonlyStopForwardOnly (R10.3, shared with C11): see the comment in the body.
+func ruleReadonlyStopForwardOnly(c *eng.Ctx) {
+	p := c.P
+	// the read-only substitution (a read-only partition ends at the end of the log) applies to forward reading only: a
+	// reverse subscription starts at the newest message, which *is* that stop offset
+	if fn := c.Fn("server.(*partition).getStopOffset"); fn != nil {
+		ro := eng.BoolEdges(fn, eng.Call(-1, cl+"CommitLog.IsReadonly"), true)
+		fwd := eng.BoolEdges(fn, eng.LoadNamed("Reverse", nil), false)
+		n := 0
+		for _, nc := range eng.CallsIn(fn, cl+"CommitLog.NewestOffset") {
+			if g, _ := eng.GuardedBy(fn, nc.(ssa.Instruction), ro); !g || len(ro) == 0 {
+				continue // STOP_LATEST
+			}
+			n++
+			g, w := eng.GuardedBy(fn, nc.(ssa.Instruction), fwd)
+			c.Check(g && len(fwd) > 0, "read-only partitions end at the newest offset only when read forward", c.Pos(nc.(ssa.Instruction)), "IsReadonly() ∧ ¬Reverse", "the read-only stop offset (newest offset) is also applied to reverse subscriptions (path "+w.String()+"): a reverse subscription on a read-only partition delivers the newest message, finds that its offset equals the stop offset and ends — the rest of the log is never delivered (a cursor fetch on a read-only cursors partition answers -1 for every cursor but the last one stored)")
+		}
+		c.Check(n >= 1, "read-only partitions end at the end of the log", p.Pos(fn.Pos()), "stop offset = NewestOffset() when IsReadonly()", "getStopOffset no longer ends subscriptions on read-only partitions at the end of the log")
+	}
+}
+
+// ruleReverseEndStatus (R10.2, shared with C11): fn is the subscribe loop.
+func ruleReverseEndStatus(c *eng.Ctx, fn *ssa.Function) {
+	p := c.P
+	// io.EOF is how the reverse reader says that it has gone past the oldest message: the end of a reverse
+	// subscription. It must be reported like every other end (ResourceExhausted), not as an unknown failure.
+	isEOF := eng.CmpEdges(fn, eng.AnyV, eng.Global("io.EOF"), eng.EQ)
+	okEnd := false
+	for _, sn := range eng.CallsIn(fn, "google.golang.org/grpc/status.New") {
+		k, isK := sn.Common().Args[0].(*ssa.Const)
+		if !isK || eng.EnumName(k) != "ResourceExhausted" {
+			continue
+		}
+		if g, _ := eng.GuardedBy(fn, sn.(ssa.Instruction), isEOF); g && len(isEOF) > 0 {
+			okEnd = true
+		}
+	}
+	c.Check(okEnd, "end of a reverse subscription has its status", p.Pos(fn.Pos()), "err == io.EOF → ResourceExhausted", "io.EOF from the reverse reader (it has gone past the oldest message) falls to status.Convert: a reverse subscription that has delivered everything ends with code Unknown \"EOF\", which a client cannot tell from a failure — the cursor manager's own scan expects ResourceExhausted there and answers an Internal error when the oldest message disappears under it")
 }
